@@ -634,6 +634,102 @@ func c14Cycles() []c14Scenario {
 		}
 		main := `module main { namespace "urn:main"; prefix m; include s0; revision 0; leaf x { type string; } }`
 		out = append(out, c14Scenario{"include-graph-" + name, main, memOpener(subs)})
+		// the same graphs with nothing but the references in the bodies (a cycle is then not
+		// cut short by a duplicate-name conflict), and with the references spelled through prefixes
+		for _, pfx := range []string{"", "cy:"} {
+			tag := "bare"
+			if pfx != "" {
+				tag = "ownprefix"
+			}
+			sb.Reset()
+			sb.WriteString(hdr)
+			for i := 0; i < 3; i++ {
+				if f[i] == 3 {
+					fmt.Fprintf(&sb, "grouping g%d { } ", i)
+				} else {
+					fmt.Fprintf(&sb, "grouping g%d { uses %sg%d; } ", i, pfx, f[i])
+				}
+			}
+			sb.WriteString("container c { uses " + pfx + "g0; } }")
+			out = append(out, c14Scenario{"grouping-" + tag + "-graph-" + name, sb.String(), nil})
+			if pfx == "" {
+				continue
+			}
+			sb.Reset()
+			sb.WriteString(hdr)
+			for i := 0; i < 3; i++ {
+				if f[i] == 3 {
+					fmt.Fprintf(&sb, "typedef t%d { type string; } ", i)
+				} else {
+					fmt.Fprintf(&sb, "typedef t%d { type %st%d; } ", i, pfx, f[i])
+				}
+			}
+			sb.WriteString("leaf x { type " + pfx + "t0; } }")
+			out = append(out, c14Scenario{"typedef-" + tag + "-graph-" + name, sb.String(), nil})
+			sb.Reset()
+			sb.WriteString(hdr)
+			for i := 0; i < 3; i++ {
+				if f[i] == 3 {
+					fmt.Fprintf(&sb, "identity i%d; ", i)
+				} else {
+					fmt.Fprintf(&sb, "identity i%d { base %si%d; } ", i, pfx, f[i])
+				}
+			}
+			sb.WriteString("leaf x { type identityref { base " + pfx + "i0; } } }")
+			out = append(out, c14Scenario{"identity-" + tag + "-graph-" + name, sb.String(), nil})
+		}
+		// typedefs and groupings of a submodule referring to each other through the belongs-to prefix
+		{
+			var tds, grs string
+			for i := 0; i < 3; i++ {
+				if f[i] == 3 {
+					tds += fmt.Sprintf("typedef t%d { type string; } ", i)
+					grs += fmt.Sprintf("grouping g%d { } ", i)
+				} else {
+					tds += fmt.Sprintf("typedef t%d { type m:t%d; } ", i, f[i])
+					grs += fmt.Sprintf("grouping g%d { uses m:g%d; } ", i, f[i])
+				}
+			}
+			mainT := `module main { namespace "urn:main"; prefix m; include s0; revision 0; leaf x { type t0; } }`
+			out = append(out, c14Scenario{"typedef-submodule-graph-" + name, mainT, memOpener(map[string]string{"s0": `submodule s0 { belongs-to main { prefix m; } ` + tds + `}`})})
+			mainG := `module main { namespace "urn:main"; prefix m; include s0; revision 0; container c { uses g0; } }`
+			out = append(out, c14Scenario{"grouping-submodule-graph-" + name, mainG, memOpener(map[string]string{"s0": `submodule s0 { belongs-to main { prefix m; } ` + grs + `}`})})
+		}
+		// one typedef / grouping / identity per module, referring to the one of the imported module
+		{
+			mods := map[string]string{}
+			for i := 0; i < 3; i++ {
+				imp, td, gr, id := "", "typedef t { type string; } ", "grouping g { } ", "identity i; "
+				if f[i] != 3 && f[i] != i {
+					imp = fmt.Sprintf("import m%d { prefix p%d; } ", f[i], f[i])
+					td = fmt.Sprintf("typedef t { type p%d:t; } ", f[i])
+					gr = fmt.Sprintf("grouping g { uses p%d:g; } ", f[i])
+					id = fmt.Sprintf("identity i { base p%d:i; } ", f[i])
+				} else if f[i] == i {
+					td = fmt.Sprintf("typedef t { type m%d:t; } ", i)
+					gr = fmt.Sprintf("grouping g { uses m%d:g; } ", i)
+					id = fmt.Sprintf("identity i { base m%d:i; } ", i)
+				}
+				use := ""
+				if i == 0 {
+					use = "leaf x { type t; } container c { uses g; } leaf y { type identityref { base i; } } "
+				}
+				mods[fmt.Sprintf("m%d", i)] = fmt.Sprintf(`module m%d { namespace "urn:m%d"; prefix m%d; %srevision 0; %s%s%s%s}`, i, i, i, imp, td, gr, id, use)
+			}
+			out = append(out, c14Scenario{"cross-module-definition-graph-" + name, mods["m0"], memOpener(mods)})
+		}
+		// includes among submodules that hold nothing else
+		{
+			subs := map[string]string{}
+			for i := 0; i < 3; i++ {
+				inc := ""
+				if f[i] != 3 {
+					inc = fmt.Sprintf("include s%d; ", f[i])
+				}
+				subs[fmt.Sprintf("s%d", i)] = fmt.Sprintf(`submodule s%d { belongs-to main { prefix m; } %s}`, i, inc)
+			}
+			out = append(out, c14Scenario{"include-bare-graph-" + name, `module main { namespace "urn:main"; prefix m; include s0; revision 0; }`, memOpener(subs)})
+		}
 	}
 	// wrong-kind and missing targets
 	kinds := map[string]string{"leaf": "c/lf", "container": "c", "list": "c/li", "rpc": "r1", "missing": "c/nope", "leaf-list": "c/ll", "choice": "c/ch", "case": "c/ch/ca", "notification": "n1", "rpc-input": "r1/input"}
@@ -897,6 +993,43 @@ func (p *c14) Run(raw json.RawMessage) eng.Result {
 	return res
 }
 
+func c14CycleClass(name string) string {
+	cls := name
+	if j := strings.Index(cls, "-graph-"); j >= 0 {
+		cls = cls[:j+6]
+	}
+	for _, fam := range []string{"deviation", "augment", "leafref", "refine", "uses-augment"} {
+		if strings.HasPrefix(cls, fam+"-") {
+			cls = fam + "-target"
+		}
+	}
+	return cls
+}
+
+// CrashSite labels a crash of a single-input case by the class of its input.
+func (p *c14) CrashSite(raw json.RawMessage) string {
+	var c c14Case
+	decode(raw, &c)
+	if c.To-c.From != 1 {
+		return ""
+	}
+	switch c.Kind {
+	case "cycle":
+		if cy := c14Cycles(); c.From < len(cy) {
+			return "reference:" + c14CycleClass(cy[c.From].name)
+		}
+	case "opener":
+		if ops := c14Openers(); c.From < len(ops) {
+			name := ops[c.From].name
+			if j := strings.Index(name, "-fails-at-"); j >= 0 {
+				name = name[:j+9]
+			}
+			return "opener:" + name
+		}
+	}
+	return ""
+}
+
 func tail(s string, n int) string {
 	if len(s) > n {
 		return s[len(s)-n:]
@@ -912,5 +1045,5 @@ func trunc200(s string) string {
 }
 
 // exported for probes
-func C14Everything() string { return c14Everything }
+func C14Everything() string                 { return c14Everything }
 func C14LoadX(text string) (string, string) { return c14Load(text, c14Opener("gen/everything")) }
